@@ -381,6 +381,60 @@ pub fn gen(stream: &str, tier: &str, seed: u64) -> Vec<String> {
                 }
             }
         }
+        "v3spec" | "v5spec" => {
+            // the dec corpus (valid encodings, trailing bytes, mutations, short strings) through `spec`
+            let fam = &stream[..2];
+            for base in [format!("{}dec", fam), format!("{}short", fam)] {
+                for l in gen(&base, tier, seed) {
+                    let t: Vec<&str> = l.split_whitespace().collect();
+                    if t[0] == "dec" {
+                        out.push(format!("spec {} {}", fam, t[2]));
+                    }
+                }
+            }
+        }
+        "cross" => {
+            // CONNECTs of one family presented to the other family's decoders, and the
+            // continuation on the bytes after the protocol level with the known-protocol entry point
+            let n = if thorough { 6_000 } else { 800 };
+            for i in 0..n {
+                let sz = Sizes { big: i % 80 == 0 };
+                if i % 2 == 0 {
+                    let p = gen_v5(&mut rng, 0, sz, [0u8, 1, 2][i % 3], i);
+                    if let Ok(e) = p.encode() {
+                        let e = e.as_ref().to_vec();
+                        let h = hex(&e);
+                        out.push(format!("dec v3 {}", h));
+                        out.push(format!("deca v3 {} eof", h));
+                        out.push(format!("poll v3 {} {} eof", h, gen_sched(&mut rng, e.len())));
+                        let hl = mqtt_proto::header_len(e.len());
+                        out.push(format!("cwp v5 5 {} {}", e.len() - hl, hex_or_dash(&e[hl + 7..])));
+                        // garbage after the level byte
+                        let mut g = e[..hl + 7].to_vec();
+                        g.extend((0..(e.len() - hl - 7)).map(|_| rng.next() as u8));
+                        out.push(format!("dec v3 {}", hex(&g)));
+                        out.push(format!("poll v3 {} - eof", hex(&g)));
+                    }
+                } else {
+                    let p = gen_v3(&mut rng, 0, sz);
+                    if let Ok(e) = p.encode() {
+                        let e = e.as_ref().to_vec();
+                        let h = hex(&e);
+                        out.push(format!("dec v5 {}", h));
+                        out.push(format!("deca v5 {} eof", h));
+                        out.push(format!("poll v5 {} {} eof", h, gen_sched(&mut rng, e.len())));
+                        let hl = mqtt_proto::header_len(e.len());
+                        let plen = 2 + (e[hl + 1] as usize) + 1;
+                        let lvl = e[hl + plen - 1];
+                        out.push(format!("cwp v3 {} {}", lvl, hex_or_dash(&e[hl + plen..])));
+                        let mut g = e[..hl + plen].to_vec();
+                        g.extend((0..(e.len() - hl - plen)).map(|_| rng.next() as u8));
+                        out.push(format!("dec v5 {}", hex(&g)));
+                        out.push(format!("poll v5 {} - eof", hex(&g)));
+                    }
+                }
+            }
+        }
         "enca" => {
             let n = if thorough { 20_000 } else { 2_500 };
             for i in 0..n {
